@@ -4,7 +4,7 @@
    statements are over arbitrary lists of integers (zeros, negatives, duplicates, any order, empty). *)
 From Coq Require Import String.
 From Coq Require Import List NArith ZArith Bool.
-From AV Require Import model.Proto model.Chain proofs.ChainProofs.
+From AV Require Import model.Proto model.Chain proofs.ChainProofs proofs.ChainBounds.
 Import ListNotations.
 Open Scope Z_scope.
 
@@ -75,6 +75,18 @@ Theorem C02_program_evaluate : forall c p,
   program c = Ok p -> evaluate p = Ok c /\ length p = (length c - 1)%nat.
 Proof. exact program_evaluate. Qed.
 Print Assumptions C02_program_evaluate.
+
+(* growth bound (a consequence every accepted chain inherits): the k-th element is at most 2^k, so a
+   sequence the validator accepts as a chain for n has at least log2_up n + 1 elements *)
+Theorem C02_growth_bound : forall c,
+  is_chain c -> forall k, (k < length c)%nat -> nz c k <= 2 ^ Z.of_nat k.
+Proof. exact chain_nz_le_pow2. Qed.
+Print Assumptions C02_growth_bound.
+
+Theorem C02_length_lower_bound : forall c n,
+  produces c n = Ok tt -> Z.log2_up n <= Z.of_nat (length c - 1).
+Proof. exact produces_length_lower_bound. Qed.
+Print Assumptions C02_length_lower_bound.
 
 (* ---- non-vacuity: the hypotheses are met by non-trivial objects ---- *)
 
